@@ -58,4 +58,6 @@ PROPS = {
     "C16": {"level": "exploration", "assumptions": SIM_ASSUME, "parts": [sim("TestC16")]},
     "C17": {"level": "exploration", "assumptions": PURE_ASSUME,
             "parts": [rp("inputs", "TestC17Load", (300, 2), (5000, 8)), rp("inputs", "TestC17Corrupt", (600, 2), (10000, 8)), rp("inputs", "TestC17Equals", (5000, 2), (100000, 8))]},
+    "C18": {"level": "exploration", "assumptions": ["the harness wires the task runner exactly as app.appAction does (pipeline env as runner env, real FileOutputStore); a change to that closure in app/app.go is not seen", "real processes via cmd/vhelper; the environment of the test process stands for the prunner process"],
+            "parts": [rp("procs", "TestC18", (40, 2), (1500, 8), helpers=["cmd/vhelper"])]},
 }
